@@ -1,5 +1,6 @@
 import HC.Proofs.LiveRefine
 import HC.Proofs.FullRoots
+import HC.Proofs.BitfieldPages
 /-!
 Reopen: replaying the logged entries over the flushed stores re-establishes the representation
 invariant `Rep` for the same abstract log.
@@ -12,7 +13,7 @@ it for the current log.  `reopen_refines`: hence `Hypercore::new` yields a core 
 -/
 namespace HC.Reopen
 open HC HC.Codec HC.Flat HC.Tree HC.RefTree HC.RefProof HC.Offsets HC.TreeStore HC.LogSpec HC.Core HC.Oplog HC.LiveRefine
-  HC.FullRoots
+  HC.FullRoots HC.BitfieldPages HC.FormatLimits HC.OplogBytes
 
 /-! ### reference roots as a list -/
 
@@ -151,13 +152,30 @@ theorem truncate_ok (C : Crypto) (bs : Array Bytes) (t : Tree) (f : File) (fork 
 /-! ### replaying one entry -/
 
 /-- what the replay maintains: `Rep` without the parts that live outside (secret, data store) -/
-structure RInv (C : Crypto) (t : Tree) (b : Bitfield) (h : Header) (f : File) (a : Abs) : Prop where
+structure RInv (C : Crypto) (t : Tree) (b : Bitfield) (h : Header) (f fb : File) (a : Abs) : Prop where
   tree : RootsOK C a.blocks t.changeset
   nodes : NodesOK C a.blocks t f
   mapwf : MapWF t.unflushed
   bits : ∀ i, b.get i = a.held i
   heldLt : ∀ i, a.held i = true → i < a.blocks.size
   contig : FirstMissing b h.contiguous
+  hdrLen : h.tree.length = a.blocks.size
+  hdrSig : h.tree.signature = [] ∨ h.tree.signature.length = 64
+  shape : HdrShape h
+  forkU : U64 t.fork
+  dirty : ∀ i, b.get i ≠ (Bitfield.ofFile fb).get i → i / Spec.pageBits ∈ b.dirty
+
+theorem contig_le_of (b : Bitfield) (c n : Nat) (h : FirstMissing b c) (hlt : ∀ i, b.get i = true → i < n) : c ≤ n := by
+  by_cases hle : c ≤ n
+  · exact hle
+  · exfalso
+    have := hlt n (h.1 n (by omega))
+    omega
+
+theorem updateContiguous_eq (h : Header) (b : Bitfield) (u : BitfieldUpdate) :
+    updateContiguous h b u = { h with contiguous := (updateContiguous h b u).contiguous } := by
+  simp only [updateContiguous]
+  split <;> (try split) <;> rfl
 
 theorem foldl_addNode (nodes : List Node) (t : Tree) :
     nodes.foldl Tree.addNode t = { t with unflushed := insertAll t.unflushed nodes } := by
@@ -166,8 +184,9 @@ theorem foldl_addNode (nodes : List Node) (t : Tree) :
   | cons n ns ih => simp only [List.foldl_cons, ih, Tree.addNode, insertAll]
 
 theorem replayEntry_ok (C : Crypto) (hC : HashWF C) (d : Disk) (ol : Oplog.State) (h : Header) (t : Tree) (b : Bitfield)
-    (a a' : Abs) (e : Entry) (hinv : RInv C t b h d.tree a) (hstep : EntryStep C a e a') (hsmall : Small a') :
-    ∃ h' t' b', Core.replayEntry C d (ol, h, t, b) e = .ok (ol, h', t', b') ∧ RInv C t' b' h' d.tree a'
+    (a a' : Abs) (e : Entry) (hTw : TreeWF C) (hinv : RInv C t b h d.tree d.bitfield a) (hstep : EntryStep C a e a')
+    (hsmall : Small a') (hok : EntryOK e) :
+    ∃ h' t' b', Core.replayEntry C d (ol, h, t, b) e = .ok (ol, h', t', b') ∧ RInv C t' b' h' d.tree d.bitfield a'
       ∧ h'.secret = h.secret ∧ h'.publicKey = h.publicKey := by
   cases hstep with
   | clear s e hse =>
@@ -177,7 +196,32 @@ theorem replayEntry_ok (C : Crypto) (hC : HashWF C) (d : Disk) (ol : Oplog.State
     rw [habs]
     refine ⟨updateContiguous h (b.setRange s (e - s) false) ⟨true, s, e - s⟩, t, b.setRange s (e - s) false, ?_, ?_, ?_, ?_⟩
     · simp [Core.replayEntry, Tree.addNode]
-    · refine ⟨hinv.tree, hinv.nodes, hinv.mapwf, ?_, ?_, ?_⟩
+    · have hbits' : ∀ i, (b.setRange s (e - s) false).get i = (a.held i && !(decide (s ≤ i) && decide (i < e))) := by
+        intro i
+        rw [Bitfield.get_setRange, hinv.bits]
+        by_cases hin : s ≤ i ∧ i < s + (e - s)
+        · have : s ≤ i ∧ i < e := by omega
+          simp [hin, this.1, this.2]
+        · by_cases h1 : s ≤ i
+          · have : ¬ i < e := by omega
+            simp [hin, h1, this]
+            intro _; omega
+          · simp [hin, h1]
+      have hfm := updateContiguous_spec h b ⟨true, s, e - s⟩ hinv.contig (by simp; omega)
+      simp only [Bool.not_true] at hfm
+      have hcU : U64 (updateContiguous h (b.setRange s (e - s) false) ⟨true, s, e - s⟩).contiguous := by
+        have := contig_le_of _ _ a.blocks.size hfm (by
+          intro i hi
+          rw [hbits'] at hi
+          simp only [Bool.and_eq_true] at hi
+          exact hinv.heldLt i hi.1)
+        have hsz : a.blocks.size < 2 ^ 64 := by have := hsmall.1; rw [habs] at this; exact this
+        unfold U64; omega
+      refine ⟨hinv.tree, hinv.nodes, hinv.mapwf, ?_, ?_, ?_, ?_, ?_, ?_, hinv.forkU, dirty_setRange _ _ _ _ _ hinv.dirty⟩
+      rotate_left 3
+      · rw [updateContiguous_eq]; exact hinv.hdrLen
+      · rw [updateContiguous_eq]; exact hinv.hdrSig
+      · rw [updateContiguous_eq]; exact hdrShape_contig _ hinv.shape _ hcU
       · intro i
         rw [Bitfield.get_setRange, hinv.bits]
         by_cases hin : s ≤ i ∧ i < s + (e - s)
@@ -274,37 +318,67 @@ theorem replayEntry_ok (C : Crypto) (hC : HashWF C) (d : Disk) (ol : Oplog.State
     refine ⟨h2, t2, b', ?_, ?_, by rw [hh2.2.1, hh1s.1], by rw [hh2.2.2, hh1s.2]⟩
     · simp only [Core.replayEntry, ht1, hb', hh1, Bool.not_false, htr, hsig, ne_eq, not_true_eq_false, ite_false, hcs2,
         hcommit, het]
-    · refine ⟨⟨t2a.2.1, ?_, t2a.2.2.1⟩, ?_, ?_, hbits', ?_, ?_⟩
-      · simp [Tree.changeset, t2a.1, refRoots, List.map_reverse]
-      · intro dd o hb
-        rw [← hN1 dd o hb]
-        exact node?_congr t1 t2 d.tree _ (by rw [t2a.2.2.2])
-      · rw [t2a.2.2.2]; exact hwf1
-      · intro i hi
+    · have hheldLt' : ∀ i, held' i = true → i < bs'.size := by
+        intro i hi
         rw [← hheld'] at hi
         simp only [Bool.or_eq_true, Bool.and_eq_true, decide_eq_true_eq] at hi
         rcases hi with hi | hi
         · have := hinv.heldLt i hi; rw [hsize']; omega
         · rw [hsize']; omega
+      have hfkU : U64 fk := by
+        have := hok.1.up ⟨fk, a.blocks.size, a.blocks.size + batch.length, sig⟩ rfl
+        exact this.1
+      have hh2tree : h2.tree = { h1.tree with rootHash := cs2.hash.getD [], signature := cs2.signature.getD [], length := cs2.length } := by
+        rw [← het]
+        have hup2 : cs2.upgraded = true := by rw [← hcs2]; exact r4
+        simp only [entryOf, hup2, ite_true]
+      have hh2rest : h2 = { h1 with tree := h2.tree } := by
+        rw [← het]
+        simp only [entryOf]; split <;> rfl
+      have hcs2len : cs2.length = bs'.size := by rw [← hcs2]; exact r2
+      have hcs2sig : cs2.signature.getD [] = sig := by rw [← hcs2]; rfl
+      have hcs2hash : (cs2.hash.getD []).length ≤ 32 := by
+        rw [← hcs2]; simp only [Option.getD_some, Tree.rootsHash]; rw [hTw]
+      have hh1eq : h1 = { h with contiguous := h1.contiguous } := by rw [← hh1]; exact updateContiguous_eq _ _ _
+      have hc1U : U64 h1.contiguous := by
+        have := contig_le_of b' h1.contiguous bs'.size hcontig1 (by intro i hi; rw [hbits'] at hi; exact hheldLt' i hi)
+        have hsz : bs'.size < 2 ^ 64 := hsmall.1
+        unfold U64; omega
+      have hshape1 : HdrShape h1 := by rw [hh1eq]; exact hdrShape_contig _ hinv.shape _ hc1U
+      refine ⟨⟨t2a.2.1, ?_, t2a.2.2.1⟩, ?_, ?_, hbits', hheldLt', ?_, ?_, ?_, ?_, ?_, ?_⟩
+      · simp [Tree.changeset, t2a.1, refRoots, List.map_reverse]
+      · intro dd o hb
+        rw [← hN1 dd o hb]
+        exact node?_congr t1 t2 d.tree _ (by rw [t2a.2.2.2])
+      · rw [t2a.2.2.2]; exact hwf1
       · rw [hh2.1]; exact hcontig1
+      · rw [hh2tree]; exact hcs2len
+      · rw [hh2tree]; exact Or.inr (by rw [hcs2sig]; exact hsig)
+      · rw [hh2rest, hh2tree]
+        have := hdrShape_set h1 hshape1 (cs2.hash.getD []) (cs2.signature.getD []) cs2.length h1.contiguous hcs2hash
+          (by rw [hcs2sig, hsig]) (by rw [hcs2len]; have hsz : bs'.size < 2 ^ 64 := hsmall.1; unfold U64; omega) hc1U
+        simpa using this
+      · rw [← ht2]; exact hfkU
+      · rw [← hb']; exact dirty_setRange _ _ _ _ _ hinv.dirty
 
 /-! ### replaying the whole log -/
 
-theorem replay_ok (C : Crypto) (hC : HashWF C) (d : Disk) (ol : Oplog.State) (es : List Entry) :
-    ∀ (h : Header) (t : Tree) (b : Bitfield) (a a' : Abs), RInv C t b h d.tree a → Trace C a es a' →
-      ∃ h' t' b', Core.openCore.replay C d es (ol, h, t, b) = .ok (ol, h', t', b') ∧ RInv C t' b' h' d.tree a'
+theorem replay_ok (C : Crypto) (hC : HashWF C) (hTw : TreeWF C) (d : Disk) (ol : Oplog.State) (es : List Entry) :
+    ∀ (h : Header) (t : Tree) (b : Bitfield) (a a' : Abs), RInv C t b h d.tree d.bitfield a → Trace C a es a' →
+      (∀ e ∈ es, EntryOK e) →
+      ∃ h' t' b', Core.openCore.replay C d es (ol, h, t, b) = .ok (ol, h', t', b') ∧ RInv C t' b' h' d.tree d.bitfield a'
         ∧ h'.secret = h.secret ∧ h'.publicKey = h.publicKey := by
   induction es with
   | nil =>
-    intro h t b a a' hinv htr
+    intro h t b a a' hinv htr _
     cases htr
     exact ⟨h, t, b, rfl, hinv, rfl, rfl⟩
   | cons e es ih =>
-    intro h t b a a' hinv htr
+    intro h t b a a' hinv htr hoks
     cases htr with
     | cons _ a1 _ _ _ hstep hsm hrest =>
-      obtain ⟨h1, t1, b1, r1, r2, r3, r4⟩ := replayEntry_ok C hC d ol h t b a a1 e hinv hstep hsm
-      obtain ⟨h2, t2, b2, s1, s2, s3, s4⟩ := ih h1 t1 b1 a1 a' r2 hrest
+      obtain ⟨h1, t1, b1, r1, r2, r3, r4⟩ := replayEntry_ok C hC d ol h t b a a1 e hTw hinv hstep hsm (hoks e (by simp))
+      obtain ⟨h2, t2, b2, s1, s2, s3, s4⟩ := ih h1 t1 b1 a1 a' r2 hrest (fun x hx => hoks x (by simp [hx]))
       refine ⟨h2, t2, b2, ?_, s2, by rw [s3, r3], by rw [s4, r4]⟩
       simp only [Core.openCore.replay, r1, s1]
 
@@ -348,7 +422,7 @@ theorem cover_fold (C : Crypto) (bs : Array Bytes) (l : List (Nat × Nat)) (a b 
 
 theorem openTree_ok (C : Crypto) (bs : Array Bytes) (ht : HeaderTree) (f : File) (hN : NodesOK C bs {} f)
     (hlen : ht.length = bs.size) (hs : bs.size < 2 ^ 64) (hsig : ht.signature = [] ∨ ht.signature.length = 64) :
-    ∃ t, Tree.openTree ht f = .ok t ∧ RootsOK C bs t.changeset ∧ t.unflushed = {} := by
+    ∃ t, Tree.openTree ht f = .ok t ∧ RootsOK C bs t.changeset ∧ t.unflushed = {} ∧ t.fork = ht.fork := by
   have hidx : fullRoots (ht.length * 2) = (rootsStack bs.size).reverse.map fun p => Flat.index p.1 p.2 := by
     rw [hlen, Nat.mul_comm]; exact fullRoots_eq bs.size hs
   have hload := load_ok C bs f hN (rootsStack bs.size).reverse
@@ -362,7 +436,7 @@ theorem openTree_ok (C : Crypto) (bs : Array Bytes) (ht : HeaderTree) (f : File)
   have hopen : Tree.openTree ht f = .ok { roots := refRoots C bs, length := (2 * bs.size) / 2, byteLength := ((refRoots C bs).map (·.length)).sum, fork := ht.fork, signature := if ht.signature.isEmpty then none else some ht.signature } := by
     simp only [Tree.openTree, hidx, hload]
     simp only [hsigc, Bool.false_eq_true, ite_false, hfold, refRoots]
-  refine ⟨_, hopen, ⟨?_, ?_, ?_⟩, rfl⟩
+  refine ⟨_, hopen, ⟨?_, ?_, ?_⟩, rfl, rfl⟩
   · simp only [Tree.changeset]; omega
   · simp [Tree.changeset, refRoots, List.map_reverse]
   · exact refRoots_sum C bs
@@ -370,13 +444,37 @@ theorem openTree_ok (C : Crypto) (bs : Array Bytes) (ht : HeaderTree) (f : File)
 /-! ### `Hypercore::new` on existing storage -/
 
 /-- If the oplog opens to the header of the last flush and the entries logged since, the tree and
-    bitfield stores hold the state of that flush, the entries lead from that state to the log `a`, and
-    the data store holds `a`'s held blocks, then opening yields a core that represents `a`. -/
-theorem reopen_refines (C : Crypto) (hC : HashWF C) (d : Disk) (ost : Oplog.State) (hf : Header) (es : List Entry)
+    bitfield stores hold the state of that flush, and the entries lead from that state to the log `a`,
+    then opening succeeds and the opened state satisfies the replay invariant for `a`. -/
+theorem reopen_full (C : Crypto) (hC : HashWF C) (hTw : TreeWF C) (d : Disk) (ost : Oplog.State) (hf : Header) (es : List Entry)
+    (a0 a : Abs)
+    (hlog : Oplog.openLog none d.oplog.toList = .ok ⟨ost, hf, [], es⟩)
+    (hlen : hf.tree.length = a0.blocks.size) (hsig : hf.tree.signature = [] ∨ hf.tree.signature.length = 64)
+    (hshape : HdrShape hf) (hoks : ∀ e ∈ es, EntryOK e)
+    (hN : NodesOK C a0.blocks {} d.tree)
+    (hbits : ∀ i, (Bitfield.ofFile d.bitfield).get i = a0.held i) (hlt : ∀ i, a0.held i = true → i < a0.blocks.size)
+    (hcontig : FirstMissing (Bitfield.ofFile d.bitfield) hf.contiguous)
+    (hsmall0 : Small a0) (htrace : Trace C a0 es a) :
+    ∃ h' t' b', Core.openCore C none d = .ok ({ publicKey := h'.publicKey, secret := h'.secret, oplog := ost, header := h', tree := t', bitfield := b', skipFlush := 0 }, [])
+      ∧ RInv C t' b' h' d.tree d.bitfield a ∧ h'.secret = hf.secret := by
+  obtain ⟨t0, ht0, hroots0, hunf0, hfork0⟩ := openTree_ok C a0.blocks hf.tree d.tree hN hlen hsmall0.1 hsig
+  have hN0 : NodesOK C a0.blocks t0 d.tree := by
+    intro dd o hb
+    rw [← hN dd o hb]
+    exact node?_congr {} t0 d.tree _ (by rw [hunf0])
+  have hinv0 : RInv C t0 (Bitfield.ofFile d.bitfield) hf d.tree d.bitfield a0 :=
+    ⟨hroots0, hN0, by rw [hunf0]; intro k n hk; simp at hk, hbits, hlt, hcontig, hlen, hsig, hshape,
+      by rw [hfork0]; exact hshape.fork, fun i hne => absurd rfl hne⟩
+  obtain ⟨h', t', b', hrep, hinv', hs', _⟩ := replay_ok C hC hTw d ost es hf t0 (Bitfield.ofFile d.bitfield) a0 a hinv0 htrace hoks
+  refine ⟨h', t', b', ?_, hinv', hs'⟩
+  simp only [Core.openCore, hlog, applyAll_nil, ht0, hrep]
+
+/-- … hence a core that represents `a`, given that the data store holds `a`'s held blocks -/
+theorem reopen_refines (C : Crypto) (hC : HashWF C) (hTw : TreeWF C) (d : Disk) (ost : Oplog.State) (hf : Header) (es : List Entry)
     (a0 a : Abs) (sk : Bytes)
     (hlog : Oplog.openLog none d.oplog.toList = .ok ⟨ost, hf, [], es⟩)
     (hlen : hf.tree.length = a0.blocks.size) (hsig : hf.tree.signature = [] ∨ hf.tree.signature.length = 64)
-    (hsec : hf.secret = some sk)
+    (hsec : hf.secret = some sk) (hshape : HdrShape hf) (hoks : ∀ e ∈ es, EntryOK e)
     (hN : NodesOK C a0.blocks {} d.tree)
     (hbits : ∀ i, (Bitfield.ofFile d.bitfield).get i = a0.held i) (hlt : ∀ i, a0.held i = true → i < a0.blocks.size)
     (hcontig : FirstMissing (Bitfield.ofFile d.bitfield) hf.contiguous)
@@ -385,25 +483,18 @@ theorem reopen_refines (C : Crypto) (hC : HashWF C) (d : Disk) (ost : Oplog.Stat
       psum a.blocks i + k < d.data.size ∧ d.data.byte (psum a.blocks i + k) = (a.blocks.getD i []).getD k 0)
     (hsmall : Small a) :
     ∃ c', Core.openCore C none d = .ok (c', []) ∧ Rep C c' d a := by
-  obtain ⟨t0, ht0, hroots0, hunf0⟩ := openTree_ok C a0.blocks hf.tree d.tree hN hlen hsmall0.1 hsig
-  have hN0 : NodesOK C a0.blocks t0 d.tree := by
-    intro dd o hb
-    rw [← hN dd o hb]
-    exact node?_congr {} t0 d.tree _ (by rw [hunf0])
-  have hinv0 : RInv C t0 (Bitfield.ofFile d.bitfield) hf d.tree a0 :=
-    ⟨hroots0, hN0, by rw [hunf0]; intro k n hk; simp at hk, hbits, hlt, hcontig⟩
-  obtain ⟨h', t', b', hrep, hinv', hs', _⟩ := replay_ok C hC d ost es hf t0 (Bitfield.ofFile d.bitfield) a0 a hinv0 htrace
-  refine ⟨{ publicKey := h'.publicKey, secret := h'.secret, oplog := ost, header := h', tree := t', bitfield := b', skipFlush := 0 }, ?_, ?_⟩
-  · simp only [Core.openCore, hlog, applyAll_nil, ht0, hrep]
-  · exact {
-      writer := by simp [hs', hsec]
-      tree := hinv'.tree
-      nodes := hinv'.nodes
-      mapwf := hinv'.mapwf
-      bits := hinv'.bits
-      heldLt := hinv'.heldLt
-      contig := hinv'.contig
-      data := hdata
-      small := hsmall }
+  obtain ⟨h', t', b', hopen, hinv', hs'⟩ := reopen_full C hC hTw d ost hf es a0 a hlog hlen hsig hshape hoks hN hbits hlt hcontig
+    hsmall0 htrace
+  refine ⟨_, hopen, ?_⟩
+  exact {
+    writer := by simp [hs', hsec]
+    tree := hinv'.tree
+    nodes := hinv'.nodes
+    mapwf := hinv'.mapwf
+    bits := hinv'.bits
+    heldLt := hinv'.heldLt
+    contig := hinv'.contig
+    data := hdata
+    small := hsmall }
 
 end HC.Reopen
